@@ -180,6 +180,37 @@ def shuffle_perm(n: int, d1: int, d2: int, d3: int) -> None:
     hlib.done()
 
 
+LONG = [9999, 10000, 10001, 20000]
+
+
+def shuffle_long(ni: int, d1: int, d2: int, d3: int) -> None:
+    """
+    pre: 0 <= ni < 4 and 0 <= d1 and 0 <= d2 and 0 <= d3
+    post: True
+    """
+    # host lists around and beyond the 10000-element cap: still a permutation (nothing dropped, nothing repeated)
+    hlib.enter(locals())
+    n = LONG[hlib.concrete(ni, 0, 3)]
+    d1, d2, d3 = hlib.concrete(d1, 0, 3), hlib.concrete(d2, 0, 3), hlib.concrete(d3, 0, 3)
+    with hlib.native():
+        l = list(range(n))
+        saved = _install([d1, d2, d3], 0.0)
+        try:
+            try:
+                r = FUNCTIONS['shuffle'](l)
+                raised = None
+            except Exception as e:
+                r, raised = None, e
+        finally:
+            _restore(saved)
+        unchanged = l == list(range(n))
+        perm = raised is None and isinstance(r, list) and len(r) == n and sorted(r) == l
+        rl = len(r) if isinstance(r, list) else -1
+    assert unchanged, "shuffle changed its %d-element argument" % n
+    assert raised is not None or perm, "shuffle of a %d-element list returned %d elements / not a permutation" % (n, rl)
+    hlib.done()
+
+
 API = ["rand(a, b)", "rand(l)", "shuffle(l)", "l | shuffle | len", "rand(2, 2)", "rand(1, 10)"]
 if isinstance(hlib.PARAM, dict) and "t" in hlib.PARAM:
     prewarm(API[hlib.PARAM["t"]])
